@@ -7,6 +7,7 @@ import (
 	"fmt"
 	"log/slog"
 	"math"
+	"os"
 	"sort"
 	"strings"
 
@@ -20,7 +21,13 @@ import (
 	"verif/internal/gen"
 )
 
-func NopLogger() *slog.Logger { return promslog.NewNopLogger() }
+// NopLogger discards everything unless VERIF_TSDB_LOG is set (debugging aid for replays).
+func NopLogger() *slog.Logger {
+	if os.Getenv("VERIF_TSDB_LOG") != "" {
+		return slog.New(slog.NewTextHandler(os.Stderr, &slog.HandlerOptions{Level: slog.LevelInfo}))
+	}
+	return promslog.NewNopLogger()
+}
 
 // Sample is one observed sample in canonical form.
 type Sample struct {
